@@ -394,8 +394,11 @@ tl::expected<std::string, errors> canonicalize_port(
   std::string trimmed(port_value);
   helpers::remove_ascii_tab_or_newline(trimmed);
 
+  // The port state with a state override fails when it reaches the end of the
+  // input (or any other code point) without having seen a digit; a value made
+  // only of tabs and newlines is such an input.
   if (trimmed.empty()) {
-    return "";
+    return tl::unexpected(errors::type_error);
   }
 
   // Input should start with a digit character
@@ -454,8 +457,11 @@ tl::expected<std::string, errors> canonicalize_port_with_protocol(
   std::string trimmed(port_value);
   helpers::remove_ascii_tab_or_newline(trimmed);
 
+  // The port state with a state override fails when it reaches the end of the
+  // input (or any other code point) without having seen a digit; a value made
+  // only of tabs and newlines is such an input.
   if (trimmed.empty()) {
-    return "";
+    return tl::unexpected(errors::type_error);
   }
 
   // Input should start with a digit character
